@@ -14,6 +14,14 @@ ArgumentError refusal (then the plain statement decides nothing and the outcome 
 Evaluated after EVERY invocation of a sequence of invocations that share AnalyzedCode's per-code-object cache, the
 closure cache (_closure_per_cache_key) and one compiled cache (the engine's); the caches are emptied before each sequence,
 so a sequence is a self-contained replay.  The direct statement is executed with compiled_cache=None.
+
+Linked chains (`stmt += lambda s: ...`, LinkedLambdaElement): the same clauses for a statement composed as
+lambda_stmt(base) += link_1 += ... += link_n, where every link is one fixed lambda literal (one code object) from a small
+pool (scalar criteria, IN list, order_by without closure, limit, criteria on a column taken from the closure), compared
+against base().link_1'()...link_n'() built directly.  Which links an invocation uses (a different link at a position, a
+link present or absent) is the Python-level branching the documentation describes; the invocations of a sequence use
+different chains and fresh closure values and share all caches, so the statement cached for one path of lambdas must
+never be answered for another path.
 """
 import itertools
 import json
@@ -216,6 +224,81 @@ def shape_loader_criteria_in(v):
             select(A.id).order_by(A.id).options(with_loader_criteria(A, A.x.in_(v))))
 
 
+# ---- linked chains: lambda_stmt(base) += link += link ...   Every link below is ONE lambda literal = one code object.
+def _base_lambda():
+    from sqlalchemy import select, lambda_stmt
+    return lambda_stmt(lambda: select(a.c.id, a.c.x)), select(a.c.id, a.c.x)
+
+
+def _link_wx(st, pl, v):
+    st += lambda s: s.where(a.c.x == v)
+    return st, pl.where(a.c.x == v)
+
+
+def _link_wid(st, pl, v):
+    st += lambda s: s.where(a.c.id < v)
+    return st, pl.where(a.c.id < v)
+
+
+def _link_win(st, pl, v):
+    st += lambda s: s.where(a.c.id.in_(v))
+    return st, pl.where(a.c.id.in_(v))
+
+
+def _link_ord(st, pl):
+    st += lambda s: s.order_by(a.c.id.desc())
+    return st, pl.order_by(a.c.id.desc())
+
+
+def _link_lim(st, pl, v):
+    st += lambda s: s.limit(v)
+    return st, pl.limit(v)
+
+
+def _link_wcol(st, pl, col, v):
+    st = st.add_criteria(lambda s: s.where(col >= v))
+    return st, pl.where(col >= v)
+
+
+# link name -> (applier, the closure values it takes at successive uses)
+LINKS = {
+    "wx": (_link_wx, [[0], [1], [2], [1]]),
+    "win": (_link_win, [[{"list": [0, 1, 2, 3]}], [{"list": [1, 4]}], [{"list": [2, 3, 5]}], [{"list": [4]}]]),
+    "ord": (_link_ord, [[]]),
+    "lim": (_link_lim, [[4], [2], [5], [3]]),
+    "wcol": (_link_wcol, [["col:a.x", 0], ["col:a.id", 1], ["col:a.x", 1], ["col:a.id", 2]]),
+    "wid": (_link_wid, [[5], [4], [6], [3]]),
+}
+QUICK_LINKS = ["wx", "win", "ord", "lim"]
+THOROUGH_LINKS = ["wx", "win", "ord", "lim", "wcol"]
+
+
+def shape_linked_chain(chain):
+    """chain: [[link name, closure value...], ...] -> (lambda statement built with +=, the directly built statement)"""
+    st, pl = _base_lambda()
+    for link in chain:
+        st, pl = LINKS[link[0]][0](st, pl, *link[1:])
+    return st, pl
+
+
+def chain_sequences(tier):
+    """the linked-chain invocation sequences.  A chain = a word over the link pool with 0..n links after the base lambda
+    (chain length incl. the base: <= 4 quick, <= 5 thorough).  Sequences: every ordered pair (X, Y) of chains invoked as
+    X, Y, X, Y (so every 2-sequence, and every return to a shape seen before), and every ordered triple of pairwise
+    different chains of <= 2 links; the closure values of the link at position j of invocation i are the (i + j)-th of the
+    link's value cycle, so that no two invocations of a sequence carry the same values at the same place."""
+    pool = QUICK_LINKS if tier == "quick" else THOROUGH_LINKS
+    nmax = 3 if tier == "quick" else 4
+    words = [w for n in range(nmax + 1) for w in itertools.product(pool, repeat=n)]
+    short = [w for w in words if len(w) <= 2]
+
+    def inst(word, i):
+        return [[[name] + LINKS[name][1][(i + j) % len(LINKS[name][1])] for j, name in enumerate(word)]]
+    seqs = [[inst(x, 0), inst(y, 1), inst(x, 2), inst(y, 3)] for x in words for y in words]
+    seqs += [[inst(x, 0), inst(y, 1), inst(z, 2)] for x in short for y in short for z in short if len({x, y, z}) == 3]
+    return seqs, dict(links=pool, max_links_after_base=nmax, chains=len(words), pair_sequences=len(words) ** 2, triple_sequences=len(seqs) - len(words) ** 2)
+
+
 # name -> (builder, pool of argument tuples as JSON-able descriptors, uses ORM session)
 SHAPES = {
     "scalar": (shape_scalar, [[0], [1], [2], [None]], False),
@@ -238,6 +321,8 @@ SHAPES = {
     "loader_criteria": (shape_loader_criteria, [[0], [1], [2]], True),
     "loader_criteria_in": (shape_loader_criteria_in, [[{"list": [0]}], [{"list": [1, 2]}], [{"list": [0, 1, 2]}]], True),
 }
+CHAIN = "linked_chain"          # its sequences come from chain_sequences(), not from a value pool
+SHAPES[CHAIN] = (shape_linked_chain, None, False)
 
 
 def reset_caches():
@@ -341,12 +426,20 @@ def run(run, tier, seed, args):
     t0 = time.time()
     length = 5 if tier == "thorough" else 3
     tasks = []
+    chain_scope = {}
     for shape in SHAPES:
-        seqs = sequences_for(shape, length)
-        k = max(1, len(seqs) // 8)
+        if shape == CHAIN:
+            seqs, chain_scope = chain_sequences(tier)
+            if seed:
+                import random
+                random.Random(seed).shuffle(seqs)
+            k = max(1, len(seqs) // 256)
+        else:
+            seqs = sequences_for(shape, length)
+            k = max(1, len(seqs) // 8)
         tasks += [(shape, seqs[i:i + k]) for i in range(0, len(seqs), k)]
     with multiprocessing.get_context("fork").Pool(min(16, multiprocessing.cpu_count())) as pool:
-        results = pool.map(_work, tasks)
+        results = pool.map(_work, tasks, chunksize=1)
     inv = sum(r["invocations"] for r in results)
     nseq = sum(r["sequences"] for r in results)
     nontriv = sum(r["nontrivial"] for r in results)
@@ -371,7 +464,8 @@ def run(run, tier, seed, args):
                       dict(function=fn, input=f, expected=f.get("expected"), actual=f.get("got"),
                            reason="lambda statement differs from the directly built statement for the current closure values"))
     samples = []
-    for shape, seq in (("column_from_closure", [["col:a.id"], ["col:b.x"], ["col:a.id"]]), ("in_list", [[{"list": [0]}], [{"list": [1, 2]}], [{"list": []}]])):
+    chain_sample = [[[["wx", 1], ["ord"], ["lim", 4]]], [[["win", {"list": [1, 4]}], ["ord"], ["lim", 2]]], [[["wx", 2], ["win", {"list": [2, 3, 5]}], ["ord"], ["lim", 5]]]]
+    for shape, seq in (("column_from_closure", [["col:a.id"], ["col:b.x"], ["col:a.id"]]), ("in_list", [[{"list": [0]}], [{"list": [1, 2]}], [{"list": []}]]), (CHAIN, chain_sample)):
         n, f, outcomes = run_sequence(shape, seq)
         lam, plain = SHAPES[shape][0](*[resolve(x) for x in seq[-1]])
         sent, rows = execute(lam, SHAPES[shape][2], cache=True)
@@ -380,14 +474,17 @@ def run(run, tier, seed, args):
         run.crashes.append("C17: vacuous run")
     run.coverage.update(
         evaluations=inv, sequences=nseq, distinct_nontrivial=nontriv, refused_invocations=refused,
-        rule="every sequence of 1..%d argument tuples from each shape's pool (exhaustive; distinct by construction); one evaluation = one invocation "
+        chain_scope=chain_scope, chain_invocations=sum(r["invocations"] for r in results if r["shape"] == CHAIN),
+        rule="every sequence of 1..%d argument tuples from each shape's pool, and every linked-chain sequence of chain_scope (exhaustive; distinct by construction); one evaluation = one invocation "
              "(lambda statement and direct statement both executed, SQL + parameters + rows compared); a sequence is non-trivial when it contains at least two "
              "different argument tuples and at least one invocation compared equal (i.e. was not refused)" % length,
         samples=samples, exhaustive=True,
         scope="%d lambda shapes %s x all invocation sequences of length <= %d over their value pools (scalars, None, strings, lists for IN of length 0..3, "
               "columns / tables / ORM attributes / subqueries from the closure, module global, object attribute with and without track_on, nested += criteria, "
               "with_loader_criteria lambdas); caches (AnalyzedCode._fns, _closure_per_cache_key, engine compiled cache) emptied before each sequence and shared "
-              "within it; SQLite, qmark rendering" % (len(SHAPES), list(SHAPES), length),
+              "within it; linked chains lambda_stmt(base) += link... : all %d chains of <= %d links after the base over the link pool %s, all %d ordered pairs (X, Y) invoked as X, Y, X, Y "
+              "and all %d ordered triples of different chains of <= 2 links, fresh closure values at every invocation; SQLite, qmark rendering"
+              % (len(SHAPES) - 1, [x for x in SHAPES if x != CHAIN], length, chain_scope["chains"], chain_scope["max_links_after_base"], chain_scope["links"], chain_scope["pair_sequences"], chain_scope["triple_sequences"]),
         contract_failures=len(fails), wall_s=round(time.time() - t0, 1))
     run.assumptions += [
         "bytecode analysis is CPython-version specific (3.12 here)",
